@@ -140,6 +140,13 @@ func (p *Prog) indexCallWrites(fn *ssa.Function, ci ssa.CallInstruction) {
 		}
 		return
 	}
+	if id == "golang.org/x/crypto/nacl/secretbox.Open" || id == "golang.org/x/crypto/nacl/secretbox.Seal" {
+		// only the output operand is written; box/message, nonce and key are read
+		for _, l := range p.Backing(c.Args[0]) {
+			pi.writes[l] = append(pi.writes[l], &Write{Instr: ci, Vals: c.Args[1:], Fn: fn, Call: true})
+		}
+		return
+	}
 	if id == "builtin:delete" {
 		for _, l := range p.Backing(c.Args[0]) {
 			pi.writes[l] = append(pi.writes[l], &Write{Instr: ci, Vals: c.Args[1:], Fn: fn, Call: true})
